@@ -151,7 +151,9 @@ Section sched.
         * rewrite bool_decide_eq_false_2; [apply Hpu|]. intros E. by injection E.
       + intros c. rewrite Hpd', Hpd, inpre_cons. rewrite bool_decide_eq_false_2; [done|]. done.
       + intros c. rewrite Hsent', Hkv, Hsent. destruct (decide (c.1 = K)) as [HcK|HcK].
-        * destruct (k_pu s !! c); split; intros; eauto. naive_solver.
+        * destruct (k_pu s !! c) as [v|] eqn:E.
+          -- split; [intros _; eauto|intros _; right; split; eauto].
+          -- split; [intros [?|[_ [? ?]]]; done|intros ?; by left].
         * split; [intros [?|[? ?]]; done|auto].
       + intros c. rewrite Hkv, !inpre_cons, Hpu, HD.
         rewrite (bool_decide_eq_false_2 (PDel c.1 = PUpd K)) by done. simpl.
